@@ -14,7 +14,7 @@ cd $wt || exit 2
 if ! git apply --check "$patch" 2>/dev/null; then echo "PATCH DOES NOT APPLY: $patch"; exit 2; fi
 git apply "$patch"
 for p in "$@"; do
-  out=$(NEBCHECK_REPO=$wt NEBCHECK_VERIF=$sv /verif/bin/nebcheck -p "$p" 2>&1); code=$?
+  out=$(NEBCHECK_REPO=$wt NEBCHECK_VERIF=$sv ${NEBCHECK_BIN:-/verif/bin/nebcheck} -p "$p" 2>&1); code=$?
   echo "== $p exit=$code"
   echo "$out" | grep -E "^  rule=|VIOLATION|UNDECIDED|KNOWN" | cut -c1-400
 done
